@@ -371,3 +371,115 @@ def run_serial_case(case):
     except Exception as e:  # noqa: BLE001
         P.append(f'asjson of a parse result: {type(e).__name__}: {str(e)[:160]}')
     return out
+
+
+SYNTAX = [
+    "start: 'a' ;\n", "start ::= 'a' 'b' ;\n", "start := 'a' | 'b'\n\nother: 'c'\n", "start = | 'a' | 'b' ;\n",
+    "@@grammar :: Foo\n@@whitespace :: /\\s+/\n@@nameguard :: False\n@@ignorecase\n@@keyword :: if then\n@@keyword :: (a b)\n@@keyword :: 'x' \"y\"\nstart: 'a' | 'b' 'c' ;\n",
+    "@@memoization :: False\n@@parseinfo\n@@left_recursion :: True\n@@namechars :: '$-'\n@@whitespace :: ' \\t'\n@@whitespace :: False\nstart: 'a' ;\n",
+    "@@comments :: /\\(\\*.*?\\*\\)/\n@@eol_comments :: ?\"//.*?$\"\nstart: 'a' ;\n",
+    'start: @name @int @uint @float @bool ;\n', "start: ^`warn` ^^^`more` 'a' ;\n",
+    "start: ','.{'a'}+ ';'%{'b'} ','.{'c'}* ','%{'d'}- ';'.{'e'}- ;\n", "start: '+'<{'1'}+ '^'>{'2'}+ '-'<{'3'}- ;\n",
+    "start: (?: 'a' | 'b') ('c') $ ;\n", "start: 'a' >> 'b' ~ 'c' ;\n",
+    "start: {'a'}+ {'b'}- {'c'}* {'d'} {} 'e'+ 'f'* 'g'? ;\n", "start: ['a'] &'b' !'c' 'b' ->'d' ->&'e' !() $ ;\n",
+    "start: 'a' /./ 'b' $-> 'c' () $ ;\n", 'start: a=b c+=b d:b e+:b ;\nb: /x/ ;\n', 'start: @:b @+:b =b +=b ;\nb: /x/ ;\n',
+    'start: ?/ab+/? ?\'x\' ?"y" /z/ /a/ + /b/ ;\n', "start: `x` `1` ```abc``` `a b c` `1.5` `True` `None` `0x1F` `007` 'k' ;\n",
+    "@name\nstart: a ;\n@override\nstart: 'b' ;\na: 'x' ;\n", "@nomemo\nstart: a ;\n@isname @nostak\na: 'x' ;\n",
+    "a: 'x' ;\nstart[Foo, 1, x=2]: >a 'y' ;\nb(Bar) < a: 'z' ;\nc::Baz: 'q' ;\nd::Baz::Base: 'r' ;\n",
+    "start[Foo, 'bar', 1.5, -3, True, None, x=1, y='z', w=q]: 'a' ;\n", "start[0x1F]: 'a' ;\n", "start[1e5, .5, +7]: 'a' ;\n", "start[a::b]: 'a' ;\n",
+    "start(k=1): 'a' ;\n", "start: r'a\\b' 'c\\\\d' \"e'f\" '''g\nh''' \"\"\"i\"\"\" ;\n", "start: 'a', 'b', c ;\nc: 'c' ;\n",
+    "# comment\nstart: 'a'  // another\n  | 'b' /* block */ ;\n(* pascal *) other: 'c' ;\n", "start: 'a'\n\n\nsecond: 'b'\n", "start: a b\n\na: 'a'\nb: 'b'\n",
+    "start: x:'a' ~ y:{'b' ~}+ $ ;\n", "start: 'é' /[α-ω]+/ '世界' ;\n", "start: '' ;\n", "start: ;\n", "start 'a' ;\n", "start: 'a' | ;\n",
+    "start: ('a' ;\n", "@@unknown :: 1\nstart: 'a' ;\n", "start: a ;\n", "start: 'a' ;\nstart: 'b' ;\n", "@@keyword :: \nstart: 'a' ;\n",
+    "start: /[/ ;\n", "start: {'a'}+- ;\n", "start: @nosuch ;\n", "Start: 'a' ;\nlower: Start ;\n", "_: 'a' ;\n__x: _ ;\n",
+]
+
+
+def mutate(text, rnd, n):
+    """n texts near `text`: one insertion, deletion or transposition of a character"""
+    out = []
+    pool = " \n;:|'\"()[]{}<>=@~`/\\$&!?+*-.,#^%ax1_"
+    for _ in range(n):
+        if not text:
+            break
+        i = rnd.randrange(len(text))
+        k = rnd.random()
+        if k < 0.34:
+            out.append(text[:i] + rnd.choice(pool) + text[i:])
+        elif k < 0.67:
+            out.append(text[:i] + text[i + 1:])
+        elif i + 1 < len(text):
+            out.append(text[:i] + text[i + 1] + text[i] + text[i + 2:])
+    return out
+
+
+_boot = {}
+
+
+def _boot_parsers():
+    if _boot:
+        return _boot
+    import tatsu
+    from tatsu.api import boot_grammar
+    src = tatsu.to_python_sourcecode(tatsu.grammar, name='Regen')
+    ns = {}
+    exec(compile(src, '<regen>', 'exec'), ns)
+    _boot['B'] = tatsu.compile(tatsu.grammar, name='FromGrammarFile')
+    _boot['C'] = ns['RegenParser']
+    _boot['D'] = boot_grammar()
+    return _boot
+
+
+def run_boot_case(case):
+    """C15 for a batch of grammar texts: A shipped bootstrap parser, B compiled _tatsu.ebnf, C regenerated parser, D shipped GRAMMAR_MODEL."""
+    import signal
+    import tatsu
+    from tatsu.exceptions import ParseException
+    from tatsu.peg.semantics import GrammarSemantics
+    from .impl import clear_caches
+    P = _boot_parsers()
+
+    class TO(BaseException):
+        pass
+
+    def h(*a):
+        raise TO()
+    signal.signal(signal.SIGALRM, h)
+    out = []
+
+    def run(fn):
+        signal.alarm(20)
+        try:
+            m = fn()
+            return ['ok', simplify(from_model(m))]
+        except TO:
+            return ['timeout', None]
+        except ParseException as e:
+            return ['reject', type(e).__name__]
+        except RecursionError:
+            return ['exc', 'RecursionError']
+        except Exception as e:  # noqa: BLE001
+            return ['exc', f'{type(e).__name__}: {str(e)[:80]}']
+        finally:
+            signal.alarm(0)
+    for text in case['texts']:
+        clear_caches()
+        r = {
+            'A': run(lambda: tatsu.compile(text, name='M')),
+            'B': run(lambda: P['B'].parse(text, semantics=GrammarSemantics('M'))),
+            'C': run(lambda: P['C']().parse(text, semantics=GrammarSemantics('M'))),
+            'D': run(lambda: P['D'].parse(text, semantics=GrammarSemantics('M'))),
+        }
+        prob = None
+        for k in 'BCD':
+            if r[k][0] != r['A'][0] and not (r[k][0] in ('reject', 'exc') and r['A'][0] in ('reject', 'exc')):
+                prob = f"{k} {r[k][0]} ({str(r[k][1])[:80] if r[k][0] != 'ok' else 'model'}) but A {r['A'][0]} ({str(r['A'][1])[:80] if r['A'][0] != 'ok' else 'model'})"
+                break
+            if r[k][0] == 'ok' and r['A'][0] == 'ok':
+                d = diff_path(r['A'][1], r[k][1])
+                if d:
+                    prob = f'{k} builds a different model than A: {d}'
+                    break
+        foreign = [f'{k}: {r[k][1]}' for k in 'ABCD' if r[k][0] in ('exc', 'timeout')]
+        out.append({'text': text, 'decision': {k: r[k][0] for k in 'ABCD'}, 'problem': prob, 'foreign': foreign})
+    return out
